@@ -68,7 +68,7 @@ def _gen0(rng, tier):
 
 
 def gen(rng, tier):
-    return G.with_layouts(rng, _gen0(rng, tier), p_alt=0.15)
+    return G.with_decoys(rng, G.with_layouts(rng, _gen0(rng, tier), p_alt=0.15))
 
 
 def corpus():
@@ -104,6 +104,11 @@ def impl(case):
     import msmhelper as mh
     from implutil import build, canon
     data = build(case['form'], case['trajs'], case.get('dtypes') or [case['dtype']], case.get('layout'))
+    if case.get('decoy'):
+        from implutil import reused_container
+        alt = reused_container(case['form'], case['decoy'], case['trajs'], case.get('dtypes') or [case['dtype']],
+                                lambda c: mh.msm.estimate_markov_model(c, case['lag']))
+        data = data if alt is None else alt
     import numpy as np
     lag = np.dtype(case['lagtype']).type(case['lag']) if case.get('lagtype') else case['lag']
     T, st = mh.msm.estimate_markov_model(data, lag)
